@@ -104,7 +104,7 @@ def compile_expr(src, pre_names):
 def base_ns():
     return {"forall": _forall, "exists": _exists, "abs": abs, "len": len, "range": range, "isinstance": isinstance,
             "type": type, "np": np, "max": max, "min": min, "int": int, "float": float, "bool": bool,
-            "hint": lambda *_a: True}
+            "hint": lambda *_a: True, "ediv": lambda a, b: a // b}
 
 
 class ContractViolation(Exception):
